@@ -43,9 +43,11 @@ def run(ctx):
         tab = table_var(pp) if table_var(pp) in params else ('defines' if 'defines' in params else None)
         look = [n for n in sx.walk(body) if n.get('k') == 'mcall' and n['m'] == 'get' and sx.is_path(n['recv'], tab)]
         r.inst('lookup', {'lookup': [sq(x) for x in look]})
-        if len(look) != 1 or sq(look[0]['args'][0]) != '&' + (id_var or '?'):
+        if len(look) == 1 and sq(look[0]['args'][0]) != '&' + (id_var or '?'):
             r.fail('%s:%s:lookup' % (CRATE, name), where(f), '%s must look the usage\'s own name (`%s`) up in the table it was given (`%s`); found %s' %
                    (name, id_var, tab, [sq(x) for x in look]))
+        elif len(look) != 1:
+            r.undecided('%s:%s:lookup' % (CRATE, name), where(f), '%d lookups in the define table' % len(look))
         # error sites
         errs = {}
         for n in sx.walk(body):
@@ -54,9 +56,11 @@ def run(ctx):
         # DefineNotFound(id)
         nf = errs.get('Error::DefineNotFound', [])
         r.inst('err:DefineNotFound', {'sites': [sq(x) for x in nf]})
-        if len(nf) != 1 or sq(nf[0]['args'][0]) not in (id_var, '%s.clone()' % id_var):
+        if len(nf) == 1 and sq(nf[0]['args'][0]) not in (id_var, '%s.clone()' % id_var, 'String::from(%s)' % id_var, '%s.to_string()' % id_var):
             r.fail('%s:%s:DefineNotFound-payload' % (CRATE, name), where(nf[0] if nf else f),
                    'DefineNotFound must carry the name of the macro that was used (`%s`); found %s' % (id_var, [sq(x) for x in nf]))
+        elif len(nf) != 1:
+            r.undecided('%s:%s:DefineNotFound-payload' % (CRATE, name), where(f), '%d DefineNotFound sites' % len(nf))
         # formal loop: for (i, (arg, default)) in define.arguments.iter().enumerate()
         loops = [n for n in sx.walk(body) if n.get('k') == 'for' and 'arguments' in sq(n['e'])]
         r.exactly('formal_loop', len(loops), 1)
@@ -65,47 +69,80 @@ def run(ctx):
             ids = [x for x in sx.pat_idents(lp['pat']) if x]
             it = sq(lp['e'])
             r.inst('formal-loop', {'iterates': it, 'binds': ids})
-            if not (it.endswith('.arguments.iter().enumerate()') and len(ids) == 3):
-                r.fail('%s:%s:formal-loop' % (CRATE, name), where(lp), 'formals must be walked in order with their index (`for (i, (arg, default)) in define.arguments.iter().enumerate()`); found %s' % it)
+            if '.rev()' in it:
+                r.fail('%s:%s:formal-loop' % (CRATE, name), where(lp), 'formals are walked in reverse order (%s)' % it)
+            elif not (it.endswith('.arguments.iter().enumerate()') and len(ids) == 3):
+                r.undecided('%s:%s:formal-loop' % (CRATE, name), where(lp), 'formal loop `%s` not in the recognised form' % it)
             else:
                 i_, arg_, def_ = ids
                 gets = [n for n in sx.walk(lp['body']) if n.get('k') == 'mcall' and n['m'] == 'get']
-                if len(gets) != 1 or sq(gets[0]['args'][0]) != i_ or 'actual' not in sq(gets[0]['recv']):
+                if len(gets) == 1 and sq(gets[0]['args'][0]) != i_:
                     r.fail('%s:%s:positional-binding' % (CRATE, name), where(lp), 'the actual argument of formal #i must be taken at the same index i; found %s' % [sq(x) for x in gets])
+                elif len(gets) != 1:
+                    r.undecided('%s:%s:positional-binding' % (CRATE, name), where(lp), 'lookup of the actual argument not recognised')
                 an = errs.get('Error::DefineArgNotFound', [])
                 r.inst('err:DefineArgNotFound', {'sites': [sq(x) for x in an]})
                 inside = [x for x in an if any(y is x for y in sx.walk(lp['body']))]
-                if len(an) != 1 or len(inside) != 1 or sq(an[0]['args'][0]) not in ('String::from(%s)' % arg_, '%s.clone()' % arg_, '%s.to_string()' % arg_):
+                if len(an) == 1 and sq(an[0]['args'][0]) not in ('String::from(%s)' % arg_, '%s.clone()' % arg_, '%s.to_string()' % arg_, '%s.into()' % arg_, '%s.to_owned()' % arg_):
                     r.fail('%s:%s:DefineArgNotFound-payload' % (CRATE, name), where(an[0] if an else lp),
                            'DefineArgNotFound must carry the name of the formal that got no value (`%s`); found %s' % (arg_, [sq(x) for x in an]))
+                elif len(an) != 1:
+                    r.undecided('%s:%s:DefineArgNotFound-payload' % (CRATE, name), where(lp), '%d DefineArgNotFound sites' % len(an))
                 ins = [n for n in sx.walk(lp['body']) if n.get('k') == 'mcall' and n['m'] == 'insert']
-                if len(ins) != 1 or arg_ not in sq(ins[0]['args'][0]):
+                if len(ins) == 1 and arg_ not in sq(ins[0]['args'][0]):
                     r.fail('%s:%s:binding-key' % (CRATE, name), where(lp), 'the value must be bound under the formal\'s name; found %s' % [sq(x) for x in ins])
+                elif len(ins) != 1:
+                    r.undecided('%s:%s:binding-key' % (CRATE, name), where(lp), 'binding of the value not recognised')
                 # default used when the actual is omitted
                 m_ = [n for n in sx.walk(lp['body']) if n.get('k') == 'match']
                 txt = sq(lp['body'])
-                if txt.count('ifletSome(%s)=%s' % (def_, def_)) < 2:
-                    r.fail('%s:%s:defaults' % (CRATE, name), where(lp), 'an omitted or missing actual must fall back to the formal\'s default (both the `Some(None)` and the `None` case)')
+                uses_default = txt.count(def_) - 0
+                arms_ = [a_ for m__ in sx.walk(lp['body']) if m__.get('k') == 'match' for a_ in m__['arms']]
+                some_none = [a_ for a_ in arms_ if sq(a_['pat']) == 'Some(None)']
+                none_ = [a_ for a_ in arms_ if sq(a_['pat']) == 'None' and any(sx.is_call(z) and z['f']['p'].endswith('DefineArgNotFound') for z in sx.walk(a_['body']))]
+                if some_none and none_:
+                    if def_ not in sq(some_none[0]['body']) or def_ not in sq(none_[0]['body']):
+                        r.fail('%s:%s:defaults' % (CRATE, name), where(lp), 'an omitted or missing actual must fall back to the formal\'s default (both the `Some(None)` and the `None` case)')
+                else:
+                    r.undecided('%s:%s:defaults' % (CRATE, name), where(lp), 'how omitted / missing actual arguments are handled is not recognised')
         na = errs.get('Error::DefineNoArgs', [])
         r.inst('err:DefineNoArgs', {'sites': [sq(x) for x in na]})
-        ok = len(na) == 1 and sq(na[0]['args'][0]) in ('define.identifier.clone()', '%s.clone()' % id_var, id_var)
-        if ok:
+        if len(na) != 1:
+            r.undecided('%s:%s:DefineNoArgs' % (CRATE, name), where(f), '%d DefineNoArgs sites' % len(na))
+        else:
+            payload = sq(na[0]['args'][0])
+            if not (payload.endswith('.identifier.clone()') or payload in ('%s.clone()' % id_var, id_var)):
+                r.fail('%s:%s:DefineNoArgs' % (CRATE, name), where(na[0]),
+                       'DefineNoArgs must carry the macro\'s name; it carries `%s`' % payload)
             host = [n for n in sx.walk(body) if n.get('k') == 'if' and any(y is na[0] for y in sx.walk(n['t']))]
             c = sq(host[-1]['c']) if host else ''
-            ok = 'arguments.is_empty()' in c and 'no_args' in c and c.startswith('(!')
-        if not ok:
-            r.fail('%s:%s:DefineNoArgs' % (CRATE, name), where(na[0] if na else f),
-                   'DefineNoArgs must be raised, with the macro\'s name, exactly when the macro has formals and the usage has no argument list')
+            def conjuncts(e_):
+                if e_.get('k') == 'binary' and e_['op'] == '&&':
+                    return conjuncts(e_['l_']) + conjuncts(e_['r'])
+                return [sq(e_)]
+            conj = conjuncts(host[-1]['c']) if host else []
+            if host and 'arguments.is_empty()' in c and 'no_args' in c:
+                has_formals = any(x.startswith('!') and 'arguments.is_empty()' in x for x in conj)
+                no_list = any(x == 'no_args' for x in conj)
+                if not (has_formals and no_list):
+                    r.fail('%s:%s:DefineNoArgs' % (CRATE, name), where(na[0]),
+                           'DefineNoArgs must be raised exactly when the macro has formals and the usage has no argument list; the condition is %s' % c)
+            else:
+                r.undecided('%s:%s:DefineNoArgs' % (CRATE, name), where(na[0]), 'condition of DefineNoArgs not recognised: %s' % c[:60])
         # body-less macro / name defined without Define -> Ok(None)
         nones = [n for n in sx.walk(body) if sq(n) == 'Ok(None)']
         r.inst('bodyless', {'Ok(None)_sites': len(nones)})
-        if len(nones) < 2:
+        if len(nones) == 0:
             r.fail('%s:%s:bodyless' % (CRATE, name), where(f), 'a macro without body (and a name defined without a Define) must expand to nothing (Ok(None))')
+        elif len(nones) < 2:
+            r.undecided('%s:%s:bodyless' % (CRATE, name), where(f), 'only one Ok(None) exit found')
         # the expansion is re-preprocessed with the table that was passed in
         calls = [n for n in sx.walk(body) if sx.is_call(n, pp.loop_fn['name'])]
         r.inst('re-preprocess', {'calls': len(calls)})
-        if len(calls) != 1:
-            r.fail('%s:%s:re-preprocess' % (CRATE, name), where(f), 'the expansion must be preprocessed again exactly once (nested usages)')
+        if len(calls) == 0:
+            r.fail('%s:%s:re-preprocess' % (CRATE, name), where(f), 'the expansion is not preprocessed again: nested usages inside a macro body stay unexpanded')
+        elif len(calls) != 1:
+            r.undecided('%s:%s:re-preprocess' % (CRATE, name), where(f), '%d nested preprocess calls' % len(calls))
     # --------------------------------------------------------------------------------------------- X14
     tab = table_var(pp)
     writes = []
@@ -167,46 +204,65 @@ def run(ctx):
 
 
 # ------------------------------------------------------------------------------------------------- X15 / X16
+class _Unm(Exception):
+    pass
+
+
+def _eval_bool(c, env):
+    """boolean expression over the flag `hit` and definedness tests (every contains_key / predefined-macro call is the
+    abstract atom "the tested name is defined")"""
+    k = c.get('k')
+    if k == 'unary' and c['op'] == '!':
+        return not _eval_bool(c['e'], env)
+    if k == 'binary' and c['op'] == '&&':
+        return _eval_bool(c['l_'], env) and _eval_bool(c['r'], env)
+    if k == 'binary' and c['op'] == '||':
+        return _eval_bool(c['l_'], env) or _eval_bool(c['r'], env)
+    if k == 'path' and c['p'] in env:
+        return env[c['p']]
+    if k == 'lit' and c.get('t') == 'bool':
+        return bool(c['v'])
+    if k in ('mcall', 'call'):
+        t = sq(c)
+        if 'contains_key(' in t or 'is_predefined' in t:
+            return env['cond']
+    raise _Unm(sq(c)[:50])
+
+
 def _eval_chain(stmts, env, skipped):
     """Tiny typestate interpreter for the branch-selection statements of a conditional arm.
-    env: {'hit': bool, 'cond': bool}; records skip_nodes.push(<body>) calls in `skipped`; returns False on an unmodelled form."""
+    env: {'hit': bool, 'cond': bool}; records skip_nodes.push(<body>) calls in `skipped`; raises _Unm on an unmodelled form."""
     for st in stmts:
         if st['k'] == 'let':
-            txt = sq(st)
-            if txt.startswith('letmuthit=false'):
-                env['hit'] = False
+            if st['pat'].get('k') == 'ident' and 'init' in st:
+                try:
+                    env[st['pat']['n']] = _eval_bool(st['init'], env)
+                except _Unm:
+                    pass    # not a boolean over the flag / definedness tests
             continue   # destructuring / identifier extraction
         if st['k'] != 'expr':
-            return False
+            raise _Unm(sq(st)[:50])
         e = st['e']
         k = e.get('k')
         if k == 'mcall' and e['m'] == 'push' and sx.is_path(e['recv'], 'skip_nodes'):
             skipped.append(sq(e['args'][0]))
             continue
-        if k == 'assign' and sq(e) == 'hit=true':
-            env['hit'] = True
+        if k == 'assign' and sx.is_path(e['l_']) and e['l_']['p'] in env:
+            env[e['l_']['p']] = _eval_bool(e['r'], env)
             continue
         if k == 'if':
             c = e['c']
             if c.get('k') == 'let':
-                return None   # `if let Some(elsebody) = elsebody` handled by caller
-            cs = sq(c)
-            if cs == 'hit':
-                v = env['hit']
-            elif 'contains_key' in cs:
-                v = env['cond'] if not cs.startswith('(!') else (not env['cond'])
-            else:
-                return False
+                raise _Unm('if let')
+            v = _eval_bool(c, env)
             branch = e['t'] if v else e.get('e')
             if branch is None:
                 continue
             if branch.get('k') == 'if':
                 branch = {'k': 'block', 'stmts': [{'k': 'expr', 'e': branch, 'semi': False}]}
-            r_ = _eval_chain(branch['stmts'], env, skipped)
-            if r_ is False:
-                return False
+            _eval_chain(branch['stmts'], env, skipped)
             continue
-        return False
+        raise _Unm(sq(st)[:50])
     return True
 
 
@@ -224,59 +280,77 @@ def chain_rules(ctx):
         # split: head (before the `for` over elsif), loop body, tail (else)
         fors = [i for i, st in enumerate(stmts) if st['k'] == 'expr' and st['e'].get('k') == 'for']
         if len(fors) != 1:
-            r.fail('%s:%s:chain-shape' % (CRATE, a.key), pp.where(a.line), '%s: expected one loop over the `elsif list (fail closed)' % a.key)
+            r.undecided('%s:%s:chain-shape' % (CRATE, a.key), pp.where(a.line), '%s: expected one loop over the `elsif list' % a.key)
             continue
         head, loop, tail = stmts[:fors[0]], stmts[fors[0]]['e'], stmts[fors[0] + 1:]
         names = {}
 
         def body_skipped(sk, what):
             return any(what in x for x in sk)
-        ok_all = True
-        # ---- first branch: for cond in {F,T}
-        for cond in (False, True):
-            env = {'hit': False, 'cond': cond}
-            sk = []
-            res = _eval_chain(head, env, sk)
-            truth = (not cond) if neg else cond        # condition "macro is (not) defined" holds
-            # cond models `defines.contains_key(..) || predefined`: the arm's own test polarity is read from its text
-            want_skip = not truth
-            r.inst('%s:first:%s' % (a.key, cond), {'arm': a.key, 'defined': cond, 'first_body_skipped': body_skipped(sk, 'ifbody'), 'hit': env['hit']})
-            if res is not True or body_skipped(sk, 'ifbody') != want_skip or env['hit'] != truth:
-                ok_all = False
-                r.fail('%s:%s:first-branch' % (CRATE, a.key), pp.where(a.line),
-                       '%s: with the tested name %sdefined the first branch must be %s and hit=%s; the handler gives skipped=%s hit=%s' %
-                       (a.key, '' if cond else 'un', 'kept' if truth else 'skipped', truth, body_skipped(sk, 'ifbody'), env['hit']))
-        # ---- elsif step: for hit in {F,T} x cond in {F,T}
-        for hit in (False, True):
-            for cond in (False, True):
-                env = {'hit': hit, 'cond': cond}
-                sk = []
-                res = _eval_chain(loop['body']['stmts'], env, sk)
-                want_skip = hit or not cond
-                want_hit = hit or cond
-                r.inst('%s:elsif:%s:%s' % (a.key, hit, cond), {'arm': a.key, 'hit_before': hit, 'elsif_defined': cond,
-                                                                'body_skipped': body_skipped(sk, 'elsifbody'), 'hit_after': env['hit']})
-                if res is not True or body_skipped(sk, 'elsifbody') != want_skip or env['hit'] != want_hit:
-                    r.fail('%s:%s:elsif-step' % (CRATE, a.key), pp.where(loop.get('l')),
-                           '%s: `elsif with hit=%s, defined=%s must give skipped=%s hit=%s; the handler gives skipped=%s hit=%s' %
-                           (a.key, hit, cond, want_skip, want_hit, body_skipped(sk, 'elsifbody'), env['hit']))
-        # ---- else: skipped iff hit
-        els = [st for st in tail if st['k'] == 'expr' and st['e'].get('k') == 'if' and st['e']['c'].get('k') == 'let']
-        if len(els) != 1:
-            r.fail('%s:%s:else-shape' % (CRATE, a.key), pp.where(a.line), '%s: expected `if let Some(elsebody) = elsebody {..}` (fail closed)' % a.key)
+        # the flag: the `let mut <flag> = ..` of the head
+        flag = None
+        for st in head:
+            if st['k'] == 'let' and st['pat'].get('k') == 'ident' and st['pat'].get('mut') and 'init' in st:
+                flag = st['pat']['n']
+        if flag is None:
+            r.undecided('%s:%s:chain-shape' % (CRATE, a.key), pp.where(a.line), '%s: no branch-taken flag found' % a.key)
             continue
-        for hit in (False, True):
-            env = {'hit': hit, 'cond': False}
-            sk = []
-            res = _eval_chain(els[0]['e']['t']['stmts'], env, sk)
-            r.inst('%s:else:%s' % (a.key, hit), {'arm': a.key, 'hit_before': hit, 'else_body_skipped': body_skipped(sk, 'elsebody')})
-            if res is not True or body_skipped(sk, 'elsebody') != hit:
-                r.fail('%s:%s:else-branch' % (CRATE, a.key), pp.where(els[0].get('l')),
-                       '%s: the `else body must be skipped iff an earlier branch was taken (hit=%s gives skipped=%s)' % (a.key, hit, body_skipped(sk, 'elsebody')))
-        # the directive's own keywords and identifiers are always skip-listed
-        for what in ('keyword', 'ifid', 'elsifid'):
-            pass
-    r.floor('chain_cases', r.instances, 16)
+        try:
+            # ---- first branch: for the tested name defined / undefined
+            for cond in (False, True):
+                env = {flag: False, 'cond': cond}
+                sk = []
+                _eval_chain(head, env, sk)
+                truth = (not cond) if neg else cond
+                r.inst('%s:first:%s' % (a.key, cond), {'arm': a.key, 'defined': cond, 'first_body_skipped': body_skipped(sk, 'ifbody'), 'hit': env[flag]})
+                if body_skipped(sk, 'ifbody') != (not truth) or env[flag] != truth:
+                    r.fail('%s:%s:first-branch' % (CRATE, a.key), pp.where(a.line),
+                           '%s: with the tested name %sdefined the first branch must be %s and the flag %s; the handler gives skipped=%s flag=%s' %
+                           (a.key, '' if cond else 'un', 'kept' if truth else 'skipped', truth, body_skipped(sk, 'ifbody'), env[flag]))
+            # ---- elsif step
+            for hit in (False, True):
+                for cond in (False, True):
+                    env = {flag: hit, 'cond': cond}
+                    sk = []
+                    _eval_chain(loop['body']['stmts'], env, sk)
+                    want_skip = hit or not cond
+                    want_hit = hit or cond
+                    r.inst('%s:elsif:%s:%s' % (a.key, hit, cond), {'arm': a.key, 'hit_before': hit, 'elsif_defined': cond,
+                                                                    'body_skipped': body_skipped(sk, 'elsifbody'), 'hit_after': env[flag]})
+                    if body_skipped(sk, 'elsifbody') != want_skip or env[flag] != want_hit:
+                        r.fail('%s:%s:elsif-step' % (CRATE, a.key), pp.where(loop.get('l')),
+                               '%s: `elsif with hit=%s, defined=%s must give skipped=%s hit=%s; the handler gives skipped=%s hit=%s' %
+                               (a.key, hit, cond, want_skip, want_hit, body_skipped(sk, 'elsifbody'), env[flag]))
+            # ---- else: skipped iff hit
+            els = [st for st in tail if st['k'] == 'expr' and st['e'].get('k') == 'if' and st['e']['c'].get('k') == 'let']
+            if len(els) != 1:
+                r.undecided('%s:%s:else-shape' % (CRATE, a.key), pp.where(a.line), '%s: `else handling not of the form `if let Some(elsebody) = elsebody {..}`' % a.key)
+                continue
+            for hit in (False, True):
+                env = {flag: hit, 'cond': False}
+                sk = []
+                _eval_chain(els[0]['e']['t']['stmts'], env, sk)
+                r.inst('%s:else:%s' % (a.key, hit), {'arm': a.key, 'hit_before': hit, 'else_body_skipped': body_skipped(sk, 'elsebody')})
+                if body_skipped(sk, 'elsebody') != hit:
+                    r.fail('%s:%s:else-branch' % (CRATE, a.key), pp.where(els[0].get('l')),
+                           '%s: the `else body must be skipped iff an earlier branch was taken (hit=%s gives skipped=%s)' % (a.key, hit, body_skipped(sk, 'elsebody')))
+        except _Unm as u:
+            r.undecided('%s:%s:chain-shape' % (CRATE, a.key), pp.where(a.line), '%s: statement `%s` is not modelled by the chain interpreter' % (a.key, u))
+            continue
+        # the directive's own keyword and identifier tokens are skip-listed unconditionally (they are never emitted)
+        def uncond_pushes(stmts_):
+            return [sq(st_['e']['args'][0]) for st_ in stmts_ if st_['k'] == 'expr' and st_['e'].get('k') == 'mcall' and st_['e']['m'] == 'push'
+                    and sx.is_path(st_['e']['recv'], 'skip_nodes')]
+        need = [('head', head, 2), ('elsif', loop['body']['stmts'], 2), ('else', els[0]['e']['t']['stmts'] if els else [], 1)]
+        for part, stmts_, n_need in need:
+            got = uncond_pushes(stmts_)
+            r.inst('%s:tokens:%s' % (a.key, part), {'arm': a.key, 'part': part, 'always_skipped': got})
+            if len(got) < n_need:
+                r.fail('%s:%s:directive-tokens:%s' % (CRATE, a.key, part), pp.where(a.line),
+                       '%s (%s): the directive\'s own keyword / identifier tokens must be skip-listed unconditionally (found %s): they would be '
+                       'emitted into the output' % (a.key, part, got))
+    if not getattr(r, 'undecided_list', []):
+        r.floor('chain_cases', r.instances, 20)
     # ---------------------------------------------------------------- X16: the line-tracking match (the match before the main one)
     if len(pp.matches) >= 2:
         idx, m = pp.matches[-2]
@@ -290,21 +364,46 @@ def chain_rules(ctx):
             return None
         e1, e2 = get('Enter', 'SourceDescriptionNotDirective'), get('Enter', 'CompilerDirective')
         l1, l2 = get('Leave', 'SourceDescriptionNotDirective'), get('Leave', 'CompilerDirective')
+
+        def expanded(node):
+            """text of a node plus the bodies of the private helpers it calls (one level)"""
+            t = sq(node)
+            for n in sx.walk(node):
+                if sx.is_call(n) and n['f']['p'] in pp.fns and n['f']['p'] != pp.loop_fn['name']:
+                    t += ' ' + sq(pp.fns[n['f']['p']]['body'])
+            return t
         q.inst('enter-arms', {'found': [bool(e1), bool(e2)]})
-        if not e1 or not e2 or sq(e1['body']) != sq(e2['body']):
-            q.fail('%s:include-line:enter-differ' % CRATE, pp.where(m.get('l')),
-                   'an item entered on the line of a preceding `include must raise IncludeLine for plain text and for directives alike')
-        elif 'last_include_line==locate.line' not in sq(e1['body']) or 'Err(Error::IncludeLine)' not in sq(e1['body']):
-            q.fail('%s:include-line:enter-test' % CRATE, pp.where(m.get('l')), 'entering an item must compare its line with the line of the last `include')
+        if not e1 or not e2:
+            q.undecided('%s:include-line:enter-arms' % CRATE, pp.where(m.get('l')), 'the Enter arms of the line-tracking match were not found')
+        else:
+            a1, a2 = sq(sx.alpha(e1['body'])), sq(sx.alpha(e2['body']))
+            x1, x2 = expanded(e1['body']), expanded(e2['body'])
+            both_test = all('last_include_line' in x and 'IncludeLine' in x for x in (x1, x2))
+            if a1 == a2 and both_test:
+                pass
+            elif both_test:
+                q.undecided('%s:include-line:enter-differ' % CRATE, pp.where(m.get('l')), 'the two Enter arms test the include line in different ways')
+            else:
+                missing = 'plain text' if not ('last_include_line' in x1 and 'IncludeLine' in x1) else 'directives'
+                q.fail('%s:include-line:enter-test' % CRATE, pp.where(m.get('l')),
+                       'an item entered on the line of a preceding `include must raise IncludeLine for plain text and for directives alike; %s '
+                       'are no longer tested' % missing)
         q.inst('leave-arms', {'found': [bool(l1), bool(l2)]})
-        if not l1 or not l2 or 'last_item_line=Some(locate.line)' not in sq(l1['body']) or 'last_item_line=Some(locate.line)' not in sq(l2['body']):
-            q.fail('%s:include-line:leave' % CRATE, pp.where(m.get('l')), 'leaving an item must record its line as the last item line')
+        if not l1 or not l2:
+            q.undecided('%s:include-line:leave-arms' % CRATE, pp.where(m.get('l')), 'the Leave arms of the line-tracking match were not found')
+        else:
+            ok1 = any(sq(n).startswith('last_item_line=Some(') and sq(n).endswith('.line)') for n in sx.walk(l1['body']) if n.get('k') == 'assign')
+            ok2 = any(sq(n).startswith('last_item_line=Some(') and sq(n).endswith('.line)') for n in sx.walk(l2['body']) if n.get('k') == 'assign')
+            if not (ok1 and ok2):
+                q.fail('%s:include-line:leave' % CRATE, pp.where(m.get('l')), 'leaving an item must record its line as the last item line (plain text: %s, directive: %s)' % (ok1, ok2))
         inc = [a for a in pp.arms if a.event == 'Enter' and a.kind == 'IncludeCompilerDirective']
         if inc:
-            t = sq(inc[0].body)
+            t = expanded(inc[0].body)
             q.inst('include-arm')
-            if 'last_include_line=Some(locate.line)' not in t or 'last_item_line==locate.line' not in t:
-                q.fail('%s:include-line:include-arm' % CRATE, pp.where(inc[0].line), 'the `include arm must record its own line and reject an item already on that line')
+            if 'last_include_line=Some(' not in t:
+                q.fail('%s:include-line:include-arm' % CRATE, pp.where(inc[0].line), 'the `include arm must record its own line as the last include line')
+            elif not ('last_item_line' in t and 'IncludeLine' in t):
+                q.fail('%s:include-line:include-arm' % CRATE, pp.where(inc[0].line), 'the `include arm must reject an item already on its line (IncludeLine)')
     else:
         q.fail('%s:include-line:match-missing' % CRATE, pp.where(1), 'line-tracking match not found (fail closed)')
     return [r, q]
